@@ -233,3 +233,17 @@ def exit_line(fn, path):
         if t["op"] in ("br", "switch") and "cond" in t and t.get("line"):
             return t["line"]
     return fn.term(path[-1]).get("line")
+
+
+def exit_message(fn, path):
+    """constant message of the last constraint-handler / clearing-helper call on a path (identifies an exit semantically), or ''"""
+    for bb in reversed(path or []):
+        for i in reversed(fn.blocks[bb]["insts"]):
+            if i["op"] == "call" and ("constraint_handler" in (i.get("callee") or "") or (i.get("callee") or "").startswith("handle_")):
+                for a in i.get("args", ()):
+                    for n in global_roots(a):
+                        g = fn.mod["gmap"].get(n)
+                        if g and "str" in g:
+                            return g["str"].rstrip("\0")
+                return "<computed message>"
+    return ""
